@@ -603,14 +603,23 @@ class StmtMixin:
 
     def switchstmt(self, s, cx, out, ind):
         inner = list(s['inner'])
+        opened = False
         if s.get('hasInit') or s.get('hasVar'):
-            self.err(s, 'switch with init/var')
+            # switch( const auto c = expr ): declaration in an enclosing block
+            out.append(ind + '{')
+            self.push_scope(cx)
+            opened = True
+            while inner and inner[0].get('kind') == 'DeclStmt':
+                self.stmt(inner.pop(0), cx, out, ind + '  ')
         v = self.rv(inner[0], cx)
         self.flush(cx, out, ind)
         out.append(ind + 'switch (%s)' % v)
         self.push_scope(cx, 'switch')
         self.stmt_block(inner[1], cx, out, ind)
         self.pop_scope(cx)
+        if opened:
+            self.pop_scope(cx)
+            out.append(ind + '}')
 
     def trystmt(self, s, cx, out, ind):
         inner = s['inner']
